@@ -62,6 +62,8 @@ def run(tier, seed):
         linear = rng.choice([True, False, None])
         if i % 6 == 4:
             spec = gen.chain_spec(rng)
+        elif i % 6 == 0:
+            spec = gen.pattern_chain_spec(rng)
         else:
             spec = gen.random_spec(rng, recursive=True, linear=linear, allow_inf=False, max_nt=3, max_rules=3, max_nodes=3, max_edges=3, max_dom=2)
         # keep only weights <= 1 so that Viterbi cycles have weight <= 0
